@@ -310,15 +310,30 @@ let handlers : (string * (string list -> string -> verdict)) list = [
         | "pre-silent" -> Some [Send; MsgPre; TimerExpire; TimerRun] | "late" -> Some [Send; TqExpire; TqRun; MsgReply]
         | "pre-pre-reply" -> Some [Send; MsgPre; MsgPre; MsgReply]
         | "reply-after-pre-timeout" -> Some [Send; MsgPre; TimerExpire; TimerRun; MsgReply]
+        | "pubfail" -> Some [SendFail; TqExpire; TqRun]
         | _ -> None) in
       let kinds = (match acts with
-        | Some l -> S.concat "," (L.map (fun o -> match o with Reply -> "reply" | NoResponders -> "noresponders" | Timeout -> "timeout") (run l).coq_done)
+        | Some l -> S.concat "," (L.map (fun o -> match o with Reply -> "reply" | NoResponders -> "noresponders" | Timeout -> "timeout" | SendError -> "senderror") (run l).coq_done)
         | None -> "toolong") in
       (* spec on the implementation's own observation: exactly one completion, no timeout before its deadline *)
       let spec = (match S.split_on_char '|' impl with
         | [ks; early] -> L.length (split_on ',' ks) = 1 && early = "false"
         | _ -> false) in
       { model = kinds ^ "|false"; spec_ok = Some spec; nontrivial = true }
+    | _ -> failwith "args");
+  "subjects", (fun args impl -> match args with
+    | [kind; rid; cid; meth] ->
+      let k = (match kind with "subscribe" -> Subjects.CSubscribe | "get" -> Subjects.CGet | "call" -> Subjects.CCall | _ -> Subjects.CAuth) in
+      let rs = Subjects.requests k (chars_of_string (unhex rid)) (chars_of_string (unhex cid)) (chars_of_string (unhex meth)) in
+      let m = S.concat "," (L.map (fun (s, q) -> hex (string_of_chars s) ^ "|" ^ hex (string_of_chars q)) rs) in
+      (* spec on the implementation's own output: no subject contains '?', '*', '>' or white space, none contains "{cid}",
+         and all requests of one client request carry the same query *)
+      let pairs = L.filter_map (fun e -> match S.split_on_char '|' e with [s; q] -> Some (unhex s, unhex q) | _ -> None) (split_on ',' impl) in
+      let has_sub (s : string) (p : string) = let n = S.length p in let rec go i = i + n <= S.length s && (S.sub s i n = p || go (i + 1)) in go 0 in
+      let clean s = not (S.contains s '?' || S.contains s '*' || S.contains s '>' || S.contains s ' ' || S.contains s '\t' || has_sub s "{cid}" || has_sub s "..") in
+      let spec = L.for_all (fun (s, q) -> clean s && not (has_sub q "{cid}")) pairs
+                 && (match pairs with [] -> true | (_, q0) :: tl -> L.for_all (fun (_, q) -> q = q0) tl) in
+      { model = m; spec_ok = Some spec; nontrivial = rs <> [] }
     | _ -> failwith "args");
   "adapter_events", (fun args impl -> match args with
     | [published] ->
